@@ -281,4 +281,19 @@ def stepAll (boxExact : Bool) (x : XForm) (is : List Img) : List Img :=
 def runAll (boxExact : Bool) (xs : List XForm) (i : Img) : List Img :=
   xs.foldl (fun acc x => stepAll boxExact x acc) [i]
 
+/-! ## `Util.process`: which transforms each topic gets, and in which order
+
+`for xform in xforms: if xform.topics is None: append to every topic's list else: for topic in xform.topics: append to that
+topic's list` - the chain of a topic is the configured list filtered by "unscoped or scoped to this topic", in the configured
+order.  `scopes[i] = none` for an unscoped transform, `some ts` for `...;t1;t2`. -/
+
+def appliesTo (scope : Option (List String)) (t : String) : Bool :=
+  match scope with
+  | none => true
+  | some ts => ts.contains t
+
+/-- indices (into the configured list) of the transforms handed to `execute_xforms` for topic `t`, in hand-over order -/
+def dispatch (scopes : List (Option (List String))) (t : String) : List Nat :=
+  (List.range scopes.length).filter fun i => match scopes[i]? with | some sc => appliesTo sc t | none => false
+
 end OF.Resize
